@@ -42,13 +42,15 @@ def plan(tier, seed):
     g = []
     for e in EOSES:
         for law, P, tmax, elshape, grid in itertools.product(("const", "linear", "debye"), (None, 0.0, 5.0, -2.0) if tier == "quick" else (None, 0.0, 0.5, 5.0, 20.0, -2.0, -6.0),
-                                                             (None, 300.0, 700.0, 420.0, 304.0) if tier == "quick" else (None, 0.0, 50.0, 100.0, 300.0, 304.0, 420.0, 700.0, 731.0, 950.0, 1000.0, 5000.0), ("V", "TV"),
+                                                             (None, 300.0, 700.0, 420.0, 304.0, 950.0) if tier == "quick" else (None, 0.0, 50.0, 100.0, 300.0, 304.0, 420.0, 700.0, 731.0, 950.0, 1000.0, 5000.0), ("V", "TV"),
                                                              ("uniform", "nonuniform") if tier == "quick" else ("uniform", "nonuniform", "fine", "short")):
-            if tier == "quick" and tmax in (420.0, 304.0) and (law != "linear" or P not in (None, 5.0)):
+            if tier == "quick" and tmax in (420.0, 304.0, 950.0) and (law != "linear" or P not in (None, 5.0)):
                 continue
             if tier == "quick" and grid == "nonuniform" and (P not in (None, 5.0) or tmax in (300.0, 420.0)):
                 continue
             g.append({"kind": "qha", "eos": e, "law": law, "P": P, "tmax": tmax, "el": elshape, "grid": grid})
+        for vo, P_, el_ in itertools.product(("ascending", "descending", "shuffled"), (None, 5.0), ("eos", "V", "TV")):
+            g.append({"kind": "qha", "eos": e, "law": "linear", "P": P_, "tmax": None, "el": el_, "grid": "uniform", "vorder": vo})
     for k in range(0, len(g), 12):
         groups.append(g[k:k + 12])
     meta = {"alphabet": {"eos": EOSES, "E0": E0S, "B0": B0S, "B0'": BPS, "V0": V0S, "fit_grids": 18, "qha_cases": len(g)},
@@ -184,7 +186,12 @@ def run_qha(case):
     # total free energy such that F + P V is exactly the EOS with the temperature-dependent parameters
     Ftot = np.array([f(V, E0[i], B0[i], BP[i], V0[i]) - Pev * V for i in range(len(T))])
     # split into an electronic part and a phonon part (kJ/mol)
-    if case["el"] == "V":
+    PEL = (-4.0, 0.55, 4.7, 41.0)  # static (phonon-free) equation of state of its own
+    if case["el"] == "eos":
+        el = f(V, *PEL) - Pev * V
+        ph = (Ftot - el[None, :]) * EvTokJmol
+        el_in = el.copy()
+    elif case["el"] == "V":
         el = 0.02 * (V - 40.0) ** 2 - 4.0
         ph = (Ftot - el[None, :]) * EvTokJmol
         el_in = el.copy()
@@ -200,9 +207,17 @@ def run_qha(case):
     def fail(kind, msg, resid=None):
         return dict(ok=False, sig="C20/qha/%s/%s" % (kind, case["eos"]), resid=resid, nontrivial=nontriv, msg="%s %s tmax=%s: %s" % (case["eos"], tag, case["tmax"], msg))
 
+    # the volume points in the order the caller happens to have them
+    vo = case.get("vorder", "ascending")
+    perm = {"ascending": np.arange(len(V)), "descending": np.arange(len(V))[::-1], "shuffled": np.random.default_rng(4).permutation(len(V))}[vo]
+    if vo != "ascending":
+        tag += "/volumes-" + vo
+    Vin = V[perm].copy()
+    el_in = np.ascontiguousarray(el_in[..., perm])
+    ph_in, cv_in, S_in = (np.ascontiguousarray(a[:, perm]) for a in (ph, cv, S))
     el_before = el_in.copy()
     try:
-        qha = PhonopyQHA(volumes=V, electronic_energies=el_in, temperatures=T, free_energy=ph, cv=cv, entropy=S, pressure=P, eos=case["eos"], t_max=case["tmax"])
+        qha = PhonopyQHA(volumes=Vin, electronic_energies=el_in, temperatures=T, free_energy=ph_in, cv=cv_in, entropy=S_in, pressure=P, eos=case["eos"], t_max=case["tmax"])
     except Exception as e:
         return fail("raised", "%s: %s" % (type(e).__name__, str(e)[:150]))
     if not np.array_equal(el_in, el_before):
@@ -240,7 +255,17 @@ def run_qha(case):
         wantc[i] = -2 * a[0] * T[i]
     if len(cp) != n or np.abs(cp - wantc).max() > 1e-6 * max(np.abs(wantc).max(), 1.0) + 1e-3:
         return fail("heat-capacity-P", "C_P differs from -T d2G/dT2 by the documented three-point fit: %s vs %s" % (cp[:4].tolist(), wantc[:4].tolist()))
-    hv = np.array(qha.helmholtz_volume)
+    if case["el"] == "eos":
+        # the static fit (electronic energies alone, + PV) uses the same equation of state as the run
+        try:
+            e0_, b_, bp_, v0_ = qha.get_bulk_modulus_parameters()
+        except Exception as ex:
+            return fail("static-fit-raised", "%s: %s" % (type(ex).__name__, str(ex)[:100]))
+        dev = max(abs(e0_ - PEL[0]), abs(b_ / PEL[1] - 1), abs(bp_ / PEL[2] - 1) * 0.1, abs(v0_ / PEL[3] - 1))
+        if dev > 1e-5 or abs(qha.bulk_modulus / PEL[1] - 1) > 1e-5:
+            return fail("static-fit", "static fit of electronic energies that are exactly this equation of state gives (E0,B0,B0',V0)=%s, bulk_modulus=%.5f; the data were made with %s" % (
+                np.round([e0_, b_, bp_, v0_], 5).tolist(), qha.bulk_modulus, list(PEL)))
+    hv = np.array(qha.helmholtz_volume)[:, np.argsort(perm)] if np.array(qha.helmholtz_volume).ndim == 2 else np.array(qha.helmholtz_volume)
     wantF = Ftot[:n] + Pev * V[None, :]
     if hv.shape != wantF.shape or np.abs(hv - wantF).max() > 1e-9:
         return fail("helmholtz-volume", "F(T,V) (+PV) differs from phonon + electronic (+PV) input by %.3g" % (np.abs(hv - wantF).max() if hv.shape == wantF.shape else -1))
